@@ -58,7 +58,23 @@ def np_hook(record=None):
         if nm == "norm" and call.args and isinstance(call.args[0], ast.BinOp) and isinstance(call.args[0].op, ast.Sub):
             a = ev.eval(call.args[0].left)
             b = ev.eval(call.args[0].right)
+            for x, y in ((a, b), (b, a)):
+                # an off-grid atom 'off@k': k+7 away from grid point k's neighbourhood, never within the tolerance
+                if isinstance(x, Sym) and x.name.startswith("off@") and isinstance(y, Sym) and y.name[1:].isdigit():
+                    return 7 + abs(int(x.name[4:]) - int(y.name[1:]))
             return 0 if a == b else 1000000
+        if nm in ("argmin",) and call.args:
+            vals = ev.eval(call.args[0])
+            if isinstance(vals, list) and vals and all(isinstance(v, int) for v in vals):
+                return vals.index(min(vals))
+        if nm == "sum" and name not in ("sum",) and call.args:
+            vals = ev.eval(call.args[0])
+            axis = None
+            for kw in call.keywords:
+                if kw.arg == "axis":
+                    axis = ev.eval(kw.value)
+            if isinstance(vals, list):
+                return ("sum", tuple(vals), axis)
         return NO_MATCH
 
     return hook
@@ -73,6 +89,7 @@ def _grid(repo: Repo, n: int, boundary: set, neighbours: Dict[int, List[int]]):
         j = Obj(f"j{i}", cls=None)
         j.set("index", i)
         j.set("is_boundary", i in boundary)
+        j.set("cells", {Sym(f"cell{i}_{c}") for c in range(8)})  # an interior hex vertex: 6 neighbours but 8 cells
         js.append(j)
     for i, j in enumerate(js):
         j.set("neighbours", [js[k] for k in neighbours.get(i, [])])
@@ -112,6 +129,14 @@ def write_guard(repo: Repo) -> RuleRun:
             return base
 
         ev = Evaluator(repo=repo, module=init.module, call_hook=hook)
+
+        def sum_div(op, a_, b_):
+            # np.sum(points, axis=0) / n : the average iff n is the number of summands
+            if isinstance(op, ast.Div) and isinstance(a_, tuple) and a_ and a_[0] == "sum" and isinstance(b_, int):
+                return ("avg", a_[1], a_[2]) if b_ == len(a_[1]) else ("sum-divided-by", a_[1], b_)
+            return NO_MATCH
+
+        ev.binop_hook = sum_div
         # 'point' of a junction = current grid point
         for j in js_:
             pass
@@ -193,6 +218,30 @@ def write_guard(repo: Repo) -> RuleRun:
                 _run(ev, fixp, [this, [pts_[i] for i in idxs]])
         got_fixed = set(this.get("fixed"))
         r.check(got_fixed == want_fixed, fixi, f"{label}: fixed = {sorted(got_fixed)}", f"after {label} ({seq}) the fixed set is {sorted(got_fixed)}, expected {sorted(want_fixed)}: an earlier fixing call is forgotten and a point the user fixed gets moved", fixi.node, key=f"fixed-accumulates:{label}")
+    # a fix position that is no grid point (7 tolerances away from the nearest one) pins nothing
+    grid_, pts_, js_ = _grid(repo, n, boundary, nb)
+    this = Obj("smoother", cls=sm)
+    ev = Evaluator(repo=repo, module=init.module, call_hook=np_hook({"methods": {"backport"}, "calls": []}))
+    orig = ev.obj_attr
+    ev.obj_attr = lambda obj, attr, orig=orig, grid_=grid_, js_=js_: grid_.get("points")[obj.get("index")] if (attr == "point" and obj in js_) else orig(obj, attr)  # type: ignore[method-assign]
+    _run(ev, init, [this, grid_])
+    _run(ev, fixp, [this, [pts_[3], Sym("off@2")]])
+    got_fixed = set(this.get("fixed"))
+    r.check(got_fixed == {3}, fixp, "fix_points([x3, off-grid point]) fixes point 3 only", f"fix_points with one grid point (3) and one position that coincides with no grid point fixes {sorted(got_fixed)}: a position away from every point must not pin the nearest one", fixp.node, key="fix_points:off-grid")
+    # fixing between two smoothing passes is honoured by the second pass
+    grid_, pts_, js_ = _grid(repo, n, boundary, nb)
+    this = Obj("smoother", cls=sm)
+    ev = Evaluator(repo=repo, module=init.module, call_hook=np_hook({"methods": {"backport"}, "calls": []}))
+    orig = ev.obj_attr
+    ev.obj_attr = lambda obj, attr, orig=orig, grid_=grid_, js_=js_: grid_.get("points")[obj.get("index")] if (attr == "point" and obj in js_) else orig(obj, attr)  # type: ignore[method-assign]
+    _run(ev, init, [this, grid_])
+    _run(ev, smooth, [this, 1])
+    _run(ev, fixi, [this, [2]])
+    mid = list(grid_.get("points"))
+    _run(ev, smooth, [this, 1])
+    after2 = list(grid_.get("points"))
+    moved2 = {i for i in range(n) if after2[i] != mid[i]}
+    r.check(moved2 == {1, 3, 4}, smooth, "smooth(); fix_indexes([2]); smooth(): the second pass leaves point 2 alone", f"after smooth(1), fix_indexes([2]), smooth(1) the second pass moves points {sorted(moved2)}; expected {{1, 3, 4}} - a point fixed after the first pass is still moved (or a list of free points is kept from the first pass)", smooth.node, key="fix-between-passes")
     # the requested number of sweeps is carried out: a 1-D float model in which the LAST free point already sits at its neighbours'
     # average while the first ones are far from theirs (an early exit that looks at one point only would stop after one sweep)
     nb2 = {0: [1, 4], 1: [0, 2], 2: [1, 3], 3: [2, 5], 4: [5, 0], 5: [3, 4]}
@@ -421,4 +470,13 @@ def backport(repo: Repo) -> RuleRun:
 
 backport.rule_id = "C15.BACKPORT"
 
-RULES = [write_guard, edge_neighbours, boundary_rule, backport]
+def no_stale_lazy_cache(repo: Repo) -> RuleRun:
+    """Which points are free is decided from the fixed set as it is NOW: no list of free junctions cached by the first smooth() survives a later fix_indexes()/fix_points()."""
+    from ..memo import lazy_cache_rule
+
+    return lazy_cache_rule(repo, PROP, "C15.NO-STALE-CACHE", ('optimize.',))
+
+
+no_stale_lazy_cache.rule_id = "C15.NO-STALE-CACHE"
+
+RULES = [write_guard, edge_neighbours, boundary_rule, backport, no_stale_lazy_cache]
